@@ -206,10 +206,13 @@ func c06Facts(c *ctx) (string, error) {
 	// (4) connection receive window: connFlow := cc.t.ConnectionFlow; if connFlow < 1 {…};
 	//     WriteWindowUpdate(0, connFlow); …; cc.inflow.init(int32(connFlow) + initialWindowSize)
 	idx := -1
+	cfName := "" // the local that holds cc.t.ConnectionFlow, whatever it is called
 	for i, s := range body {
-		if as, ok := s.(*ast.AssignStmt); ok && as.Tok == token.DEFINE && len(as.Lhs) == 1 &&
-			c06Render(c.fset, as.Lhs[0]) == "connFlow" && c06Render(c.fset, as.Rhs[0]) == "cc.t.ConnectionFlow" {
-			idx = i
+		if as, ok := s.(*ast.AssignStmt); ok && as.Tok == token.DEFINE && len(as.Lhs) == 1 && len(as.Rhs) == 1 &&
+			c06Render(c.fset, as.Rhs[0]) == "cc.t.ConnectionFlow" {
+			if id, ok := as.Lhs[0].(*ast.Ident); ok {
+				idx, cfName = i, id.Name
+			}
 		}
 	}
 	if idx < 0 || idx+2 >= len(body) {
@@ -220,7 +223,7 @@ func c06Facts(c *ctx) (string, error) {
 		return "", fmt.Errorf("newClientConn: the default for connFlow is no longer an if statement")
 	}
 	wu, wi := c06FindCall(t, body[idx+2:], "cc.fr.WriteWindowUpdate")
-	if wu == nil || wi != 0 || len(wu.Args) != 2 || c06Render(c.fset, wu.Args[0]) != "0" || c06Render(c.fset, wu.Args[1]) != "connFlow" {
+	if wu == nil || wi != 0 || len(wu.Args) != 2 || c06Render(c.fset, wu.Args[0]) != "0" || c06Render(c.fset, wu.Args[1]) != cfName {
 		return "", fmt.Errorf("newClientConn: `cc.fr.WriteWindowUpdate(0, connFlow)` does not follow the connFlow default")
 	}
 	ini, ii := c06FindCall(t, body[idx+2:], "cc.inflow.init")
@@ -232,7 +235,7 @@ func c06Facts(c *ctx) (string, error) {
 		ast.Inspect(s, func(n ast.Node) bool {
 			if as, ok := n.(*ast.AssignStmt); ok {
 				for _, l := range as.Lhs {
-					if c06Render(c.fset, l) == "connFlow" {
+					if c06Render(c.fset, l) == cfName {
 						bad = true
 					}
 				}
@@ -376,29 +379,49 @@ func c06Facts(c *ctx) (string, error) {
 		return "", err
 	}
 	var takeIf *ast.IfStmt
+	availName := ""
 	ast.Inspect(af.Body, func(n ast.Node) bool {
-		if is, ok := n.(*ast.IfStmt); ok && is.Init != nil && c06Render(c.fset, is.Init) == "a := cs.flow.available()" {
-			takeIf = is
+		if is, ok := n.(*ast.IfStmt); ok && is.Init != nil {
+			if as, ok := is.Init.(*ast.AssignStmt); ok && as.Tok == token.DEFINE && len(as.Lhs) == 1 && len(as.Rhs) == 1 &&
+				c06Render(c.fset, as.Rhs[0]) == "cs.flow.available()" {
+				if id, ok := as.Lhs[0].(*ast.Ident); ok {
+					takeIf, availName = is, id.Name
+				}
+			}
 		}
 		return true
 	})
-	if takeIf == nil || c06Render(c.fset, takeIf.Cond) != "a > 0" {
+	if takeIf == nil || c06Render(c.fset, takeIf.Cond) != availName+" > 0" {
 		return "", fmt.Errorf("awaitFlowControl: `if a := cs.flow.available(); a > 0` not found")
 	}
+	if len(af.Type.Params.List) != 1 || len(af.Type.Params.List[0].Names) != 1 || c06Render(c.fset, af.Type.Params.List[0].Type) != "int" {
+		return "", fmt.Errorf("awaitFlowControl: signature is no longer (maxBytes int)")
+	}
+	maxBytesName := af.Type.Params.List[0].Names[0].Name
 	tl := takeIf.Body.List
-	if len(tl) < 3 || c06Render(c.fset, tl[len(tl)-2]) != "cs.flow.take(take)" || c06Render(c.fset, tl[len(tl)-1]) != "return take, nil" {
-		return "", fmt.Errorf("awaitFlowControl: the block no longer ends with cs.flow.take(take); return take, nil")
+	takeName := ""
+	if len(tl) >= 3 {
+		if es, ok := tl[len(tl)-2].(*ast.ExprStmt); ok {
+			if call, ok := es.X.(*ast.CallExpr); ok && c06Render(c.fset, call.Fun) == "cs.flow.take" && len(call.Args) == 1 {
+				if id, ok := call.Args[0].(*ast.Ident); ok {
+					takeName = id.Name
+				}
+			}
+		}
+	}
+	if takeName == "" || c06Render(c.fset, tl[len(tl)-1]) != "return "+takeName+", nil" {
+		return "", fmt.Errorf("awaitFlowControl: the block no longer ends with cs.flow.take(x); return x, nil")
 	}
 	{
-		sc := &c06Scope{vars: map[string]c06GoType{"a": "int32", "maxBytes": "int"}, consts: map[string]int64{}, skip: map[string]bool{}, hasValue: true,
+		sc := &c06Scope{vars: map[string]c06GoType{availName: "int32", maxBytesName: "int"}, consts: map[string]int64{}, skip: map[string]bool{}, hasValue: true,
 			alias: map[string]c06AliasVar{"cc.maxFrameSize": {"maxFrameSize", "uint32"}}}
-		list := append(append([]ast.Stmt{}, tl[:len(tl)-2]...), &ast.ReturnStmt{Results: []ast.Expr{&ast.Ident{Name: "take"}}})
+		list := append(append([]ast.Stmt{}, tl[:len(tl)-2]...), &ast.ReturnStmt{Results: []ast.Expr{&ast.Ident{Name: takeName}}})
 		s, err := t.stmts(list, sc, "  ")
 		if err != nil {
 			return "", fmt.Errorf("awaitFlowControl: %v", err)
 		}
 		b.WriteString("\n/-- bytes taken by awaitFlowControl when `a = cs.flow.available() > 0` -/\n")
-		b.WriteString("def awaitTake (a maxBytes maxFrameSize : Int) : Int :=\n" + s + "\n")
+		b.WriteString("def awaitTake (" + availName + " " + maxBytesName + " maxFrameSize : Int) : Int :=\n" + s + "\n")
 	}
 
 	// ---- frameScratchBufferLen
